@@ -541,6 +541,10 @@ func (g *storageGen) next() (sdk.Msg, map[string]interface{}, func(pre, post stS
 			g.noBlock = 4
 		}
 		msg := &sttypes.MsgPostFile{Creator: creator, Merkle: merkle, FileSize: size, ProofType: 0, MaxProofs: maxProofs, Expires: expires, Note: note}
+		if g.qr != nil && g.qr.Intn(3) == 0 {
+			// the message carries a proof interval of the poster's choosing; the chain commits its own parameter
+			msg.ProofInterval = []int64{-1, 1, 2, 1000, 1 << 40, 1<<63 - 1}[g.qr.Intn(6)]
+		}
 		if expires > c.H {
 			g.lastPost, g.lastPostH = msg, c.H
 		}
@@ -781,6 +785,7 @@ func runStorage(profile string, seed int64, histories, steps int, out *Emitter) 
 		r := rand.New(rand.NewSource(seed*1000003 + int64(hi)))
 		polRatios := [][2]int64{{40, 25}, {40, 25}, {30, 20}, {10, 5}, {60, 40}, {0, 0}, {5, 25}, {50, 50}}
 		pr := polRatios[r.Intn(len(polRatios))]
+		var seeded map[string]*dataFile
 		mut := func(a *app.JackalApp, gs app.GenesisState, users []sdk.AccAddress) {
 			cdc := a.AppCodec()
 			sg := sttypes.DefaultGenesis()
@@ -793,6 +798,20 @@ func runStorage(profile string, seed int64, histories, steps int, out *Emitter) 
 			sg.Params.CollateralPrice = []int64{2, 1000, 10_000_000_000}[r.Intn(3)]
 			if r.Intn(3) == 0 {
 				sg.Params.PricePerTbPerMonth = []int64{0, 1, 8, 15, 100}[r.Intn(5)]
+			}
+			seeded = map[string]*dataFile{}
+			if r2 := rand.New(rand.NewSource(seed*31337 + int64(hi))); r2.Intn(3) == 0 {
+				// files paid once whose term ran out long ago (as an exported genesis of an old chain carries
+				// them): nothing removes them, providers may go on proving them
+				for n := 1 + r2.Intn(2); n > 0; n-- {
+					data := make([]byte, 1+r2.Intn(int(3*mix.chunk)))
+					r2.Read(data)
+					df := mkDataFile(data, mix.chunk)
+					seeded[hex.EncodeToString(df.root)] = df
+					sg.FileList = append(sg.FileList, sttypes.UnifiedFile{Merkle: df.root, Owner: users[r2.Intn(len(users))].String(), Start: 0,
+						Expires: []int64{1, 3, 20, 60}[r2.Intn(4)], FileSize: int64(len(data)), ProofInterval: sg.Params.ProofWindow, ProofType: 0,
+						Proofs: []string{}, MaxProofs: int64(1 + r2.Intn(3)), Note: `{"seeded":1}`})
+				}
 			}
 			gs[sttypes.ModuleName] = cdc.MustMarshalJSON(sg)
 			mg := minttypes.DefaultGenesis()
@@ -808,6 +827,9 @@ func runStorage(profile string, seed int64, histories, steps int, out *Emitter) 
 		for _, u := range c.Users {
 			g.users = append(g.users, u.String())
 		}
+		for k, df := range seeded {
+			g.data[k] = df
+		}
 		sort.Strings(g.users)
 		g.ips = []string{"https://a.example.com", "https://b.example.com", "https://node.other.org", "http://10.0.0.1:3333", "https://x.jackal.io", "localhost", "https://single", "not a url", "https://c.example.com:443/path",
 			"https://s1.alpha.net", "https://s2.beta.org", "https://gamma.io", "https://store.delta.dev", "https://eps.xyz:8080"}
@@ -816,7 +838,22 @@ func runStorage(profile string, seed int64, histories, steps int, out *Emitter) 
 			if g.noBlock > 0 {
 				g.noBlock--
 			}
-			if g.noBlock == 0 && r.Intn(4) == 0 { // block boundary: one step record for the storage BeginBlocker
+			restartNow := false
+			if restartsOn && g.noBlock == 0 && g.qr.Intn(150) == 0 {
+				// the network restarts from its own exported genesis: nothing the modules hold may change
+				pre, _ := c.storageAbs(g.users)
+				e := c.RestartInit()
+				if e != "" {
+					out.Emit(map[string]interface{}{"mod": "panic", "where": "restart", "hist": hi, "i": i, "h": c.H, "panic": e})
+					out.Count(profile+".restart", false)
+					break
+				}
+				post, bad := c.storageAbs(g.users)
+				out.Emit(map[string]interface{}{"mod": "storage", "hist": hi, "i": i, "h": c.H, "now": c.T.UnixNano(), "pre": pre, "op": "restart", "ok": true, "post": post, "badKeys": bad, "users": g.users})
+				out.Count(profile+".restart", true)
+				restartNow = true // its first block follows at once
+			}
+			if restartNow || (g.noBlock == 0 && r.Intn(4) == 0) { // block boundary: one step record for the storage BeginBlocker
 				dt := []time.Duration{6 * time.Second, 6 * time.Second, time.Hour, 24 * time.Hour, 10 * 24 * time.Hour, 40 * 24 * time.Hour, 400 * 24 * time.Hour}[r.Intn(7)]
 				if r.Intn(3) > 0 {
 					dt = 6 * time.Second
